@@ -1,1 +1,226 @@
-// harnesses for module m_logical_matchers (included into /repo under cfg(kani))
+// C01: evaluation of a given expression tree — the inductive step for And / Or / List / Not nodes.
+use super::*;
+use crate::find::matchers::entry::verif_kani::{fmt_stub, hae_stub, he_stub, Deps};
+use crate::find::matchers::Follow;
+
+pub static mut TRACE: [u8; 8] = [0; 8];
+pub static mut TN: usize = 0;
+pub static mut FIN: [u8; 8] = [0; 8];
+pub static mut FN: usize = 0;
+pub static mut FDIR: [u8; 8] = [0; 8];
+pub static mut FDN: usize = 0;
+
+/// Leaf with a symbolic (but fixed) result, optional quit, optional "is an action"; logs its id on every callback.
+pub struct Probe { pub id: u8, pub result: bool, pub quits: bool, pub action: bool }
+impl Matcher for Probe {
+    fn matches(&self, _: &WalkEntry, io: &mut MatcherIO) -> bool {
+        unsafe { if TN < 8 { TRACE[TN] = self.id; } TN += 1; }
+        if self.quits { io.quit(); }
+        self.result
+    }
+    fn has_side_effects(&self) -> bool { self.action }
+    fn finished_dir(&self, _d: &Path, _io: &mut MatcherIO) { unsafe { if FDN < 8 { FDIR[FDN] = self.id; } FDN += 1; } }
+    fn finished(&self, _io: &mut MatcherIO) { unsafe { if FN < 8 { FIN[FN] = self.id; } FN += 1; } }
+}
+
+macro_rules! step_harness {
+    ($name:ident, $canary:ident, $kind:expr, $k:expr, $unwind:expr) => {
+        #[kani::proof]
+        #[kani::unwind($unwind)]
+        #[kani::stub(alloc::fmt::format, fmt_stub)]
+        #[kani::stub(alloc::raw_vec::handle_error, he_stub)]
+        #[kani::stub(std::alloc::handle_alloc_error, hae_stub)]
+        fn $name() { run_step::<$k>($kind, false); }
+        #[kani::proof]
+        #[kani::unwind($unwind)]
+        #[kani::stub(alloc::fmt::format, fmt_stub)]
+        #[kani::stub(alloc::raw_vec::handle_error, he_stub)]
+        #[kani::stub(std::alloc::handle_alloc_error, hae_stub)]
+        fn $canary() { run_step::<$k>($kind, true); }
+    };
+}
+
+/// kind: 0 = And, 1 = Or, 2 = List.  K children, each an arbitrary leaf.
+fn run_step<const K: usize>(kind: u8, canary: bool) {
+    let mut res = [false; K]; let mut quits = [false; K]; let mut acts = [false; K];
+    let mut i = 0;
+    while i < K { res[i] = kani::any(); quits[i] = kani::any(); acts[i] = kani::any(); i += 1; }
+    let mut kids: Vec<Box<dyn Matcher>> = Vec::with_capacity(K);
+    let mut i = 0;
+    while i < K { kids.push(Box::new(Probe { id: i as u8 + 1, result: res[i], quits: quits[i], action: acts[i] })); i += 1; }
+    let deps = Deps::new();
+    let mut io = MatcherIO::new(&deps);
+    let entry = WalkEntry::new("a", 0, Follow::Never);
+    unsafe { TN = 0; FN = 0; FDN = 0; }
+    let (got, side) = match kind {
+        0 => { let m = AndMatcher::new(kids); let r = (m.matches(&entry, &mut io), m.has_side_effects()); m.finished_dir(Path::new("d"), &mut io); m.finished(&mut io); std::mem::forget(m); r }
+        1 => { let m = OrMatcher::new(kids); let r = (m.matches(&entry, &mut io), m.has_side_effects()); m.finished_dir(Path::new("d"), &mut io); m.finished(&mut io); std::mem::forget(m); r }
+        _ => { let m = ListMatcher::new(kids); let r = (m.matches(&entry, &mut io), m.has_side_effects()); m.finished_dir(Path::new("d"), &mut io); m.finished(&mut io); std::mem::forget(m); r }
+    };
+    // reference evaluation
+    let mut n = 0usize; let mut quit = false; let mut val = kind == 0; let mut stop = false;
+    let mut any_act = false;
+    let mut i = 0;
+    while i < K {
+        any_act = any_act || acts[i];
+        if !stop {
+            n += 1;
+            if quits[i] { quit = true; }
+            match kind {
+                0 => { if !res[i] { val = false; stop = true; } }
+                1 => { if res[i] { val = true; stop = true; } }
+                _ => { val = res[i]; }
+            }
+            if quit { stop = true; }
+        }
+        i += 1;
+    }
+    if canary {
+        // wrong on purpose: no short-circuit, every child evaluated
+        unsafe { assert!(TN == K); }
+        std::mem::forget(entry);
+        return;
+    }
+    unsafe {
+        assert!(TN == n);
+        let mut k = 0; while k < K { if k < n { assert!(TRACE[k] == k as u8 + 1); } k += 1; }
+        // finished / finished_dir reach every child once, in order
+        assert!(FN == K && FDN == K);
+        let mut k = 0; while k < K { assert!(FIN[k] == k as u8 + 1 && FDIR[k] == k as u8 + 1); k += 1; }
+    }
+    assert!(io.should_quit() == quit);
+    if !quit { assert!(got == val); }
+    assert!(side == any_act);
+    kani::cover!(n < K && !quit);
+    kani::cover!(quit && n < K);
+    kani::cover!(n == K && got);
+    std::mem::forget(entry);
+}
+
+// @harness props=C01 tier=quick cost=15
+// @exec AndMatcher::{new,matches,has_side_effects,finished,finished_dir}
+// @sym 3 children, each an arbitrary leaf: result, "evaluates -quit", "is an action"
+// @bounds node with 3 children (thorough: 4); children arbitrary, so the step covers trees of any depth given the tree
+// -a: left to right, stops after the first false child or after a child quit; value = conjunction; action flag = any child.
+step_harness!(c01_step_and, c01_step_and_canary, 0, 3, 5);
+// @harness props=C01 tier=quick cost=15
+// @exec OrMatcher::{new,matches,has_side_effects,finished,finished_dir}
+// @sym 3 arbitrary leaves
+// @bounds node with 3 children
+// -o: left to right, stops after the first true child or after a child quit.
+step_harness!(c01_step_or, c01_step_or_canary, 1, 3, 5);
+// @harness props=C01 tier=quick cost=15
+// @exec ListMatcher::{new,matches,has_side_effects,finished,finished_dir}
+// @sym 3 arbitrary leaves
+// @bounds node with 3 children
+// ',': evaluates every child (unless a child quit), yields the last value.
+step_harness!(c01_step_list, c01_step_list_canary, 2, 3, 5);
+// @harness props=C01 tier=thorough cost=40
+// @exec AndMatcher (4 children)
+// @sym 4 arbitrary leaves
+// @bounds node with 4 children
+step_harness!(c01_step_and4, c01_step_and4_canary, 0, 4, 6);
+// @harness props=C01 tier=thorough cost=40
+// @exec OrMatcher (4 children)
+// @sym 4 arbitrary leaves
+// @bounds node with 4 children
+step_harness!(c01_step_or4, c01_step_or4_canary, 1, 4, 6);
+// @harness props=C01 tier=thorough cost=40
+// @exec ListMatcher (4 children)
+// @sym 4 arbitrary leaves
+// @bounds node with 4 children
+step_harness!(c01_step_list4, c01_step_list4_canary, 2, 4, 6);
+
+// @harness props=C01 tier=quick cost=10
+// @exec NotMatcher::{new,matches,has_side_effects,finished,finished_dir}, TrueMatcher, FalseMatcher
+// @sym one arbitrary leaf
+// @bounds single child
+/// '!' inverts the value, evaluates its operand exactly once, passes quit and the action flag through.
+#[kani::proof]
+#[kani::unwind(3)]
+#[kani::stub(alloc::fmt::format, fmt_stub)]
+#[kani::stub(alloc::raw_vec::handle_error, he_stub)]
+#[kani::stub(std::alloc::handle_alloc_error, hae_stub)]
+fn c01_step_not() {
+    let (r, q, a): (bool, bool, bool) = (kani::any(), kani::any(), kani::any());
+    let m = NotMatcher::new(Probe { id: 1, result: r, quits: q, action: a });
+    let deps = Deps::new();
+    let mut io = MatcherIO::new(&deps);
+    let entry = WalkEntry::new("a", 0, Follow::Never);
+    unsafe { TN = 0; FN = 0; FDN = 0; }
+    let got = m.matches(&entry, &mut io);
+    assert!(got == !r);
+    assert!(m.has_side_effects() == a);
+    assert!(io.should_quit() == q);
+    m.finished_dir(Path::new("d"), &mut io);
+    m.finished(&mut io);
+    unsafe { assert!(TN == 1 && FN == 1 && FDN == 1); }
+    assert!(TrueMatcher.matches(&entry, &mut io) && !FalseMatcher.matches(&entry, &mut io));
+    assert!(!TrueMatcher.has_side_effects() && !FalseMatcher.has_side_effects());
+    kani::cover!(got && q);
+    kani::cover!(!got && a);
+    std::mem::forget(m); std::mem::forget(entry);
+}
+#[kani::proof]
+#[kani::unwind(3)]
+#[kani::stub(alloc::fmt::format, fmt_stub)]
+#[kani::stub(alloc::raw_vec::handle_error, he_stub)]
+#[kani::stub(std::alloc::handle_alloc_error, hae_stub)]
+fn c01_step_not_canary() {
+    let r: bool = kani::any();
+    let m = NotMatcher::new(Probe { id: 1, result: r, quits: false, action: true });
+    assert!(!m.has_side_effects()); // "a negated action is not an action": must FAIL
+    std::mem::forget(m);
+}
+
+// @harness props=C01 tier=quick cost=20
+// @exec AndMatcherBuilder::{new,new_and_condition,build}, AndMatcher::matches, Matcher::into_box
+// @sym k = 1..3 arbitrary leaves pushed in order
+// @bounds up to 3 pushes (fixed shapes 1, 2, 3)
+/// The built matcher evaluates like the conjunction of its leaves in push order, incl. the single-leaf collapse.
+#[kani::proof]
+#[kani::unwind(5)]
+#[kani::stub(alloc::fmt::format, fmt_stub)]
+#[kani::stub(alloc::raw_vec::handle_error, he_stub)]
+#[kani::stub(std::alloc::handle_alloc_error, hae_stub)]
+fn c01_and_builder() {
+    let r: [bool; 3] = kani::any();
+    let a: [bool; 3] = kani::any();
+    let shape: u8 = kani::any();
+    kani::assume(shape >= 1 && shape <= 3);
+    let mut b = AndMatcherBuilder::new();
+    b.new_and_condition(Probe { id: 1, result: r[0], quits: false, action: a[0] });
+    if shape >= 2 { b.new_and_condition(Probe { id: 2, result: r[1], quits: false, action: a[1] }); }
+    if shape >= 3 { b.new_and_condition(Probe { id: 3, result: r[2], quits: false, action: a[2] }); }
+    let m = b.build();
+    let deps = Deps::new();
+    let mut io = MatcherIO::new(&deps);
+    let entry = WalkEntry::new("a", 0, Follow::Never);
+    unsafe { TN = 0; }
+    let got = m.matches(&entry, &mut io);
+    let want = r[0] && (shape < 2 || r[1]) && (shape < 3 || r[2]);
+    let evals = if !r[0] || shape == 1 { 1 } else if !r[1] || shape == 2 { 2 } else { 3 };
+    assert!(got == want);
+    unsafe { assert!(TN == evals); assert!(TRACE[0] == 1); if evals >= 2 { assert!(TRACE[1] == 2); } if evals == 3 { assert!(TRACE[2] == 3); } }
+    assert!(m.has_side_effects() == (a[0] || (shape >= 2 && a[1]) || (shape >= 3 && a[2])));
+    kani::cover!(shape == 1 && got);
+    kani::cover!(shape == 3 && evals == 2);
+    std::mem::forget(m); std::mem::forget(entry);
+}
+#[kani::proof]
+#[kani::unwind(5)]
+#[kani::stub(alloc::fmt::format, fmt_stub)]
+#[kani::stub(alloc::raw_vec::handle_error, he_stub)]
+#[kani::stub(std::alloc::handle_alloc_error, hae_stub)]
+fn c01_and_builder_canary() {
+    let r: [bool; 2] = kani::any();
+    let mut b = AndMatcherBuilder::new();
+    b.new_and_condition(Probe { id: 1, result: r[0], quits: false, action: false });
+    b.new_and_condition(Probe { id: 2, result: r[1], quits: false, action: false });
+    let m = b.build();
+    let deps = Deps::new();
+    let mut io = MatcherIO::new(&deps);
+    let entry = WalkEntry::new("a", 0, Follow::Never);
+    assert!(m.matches(&entry, &mut io) == (r[0] || r[1])); // must FAIL
+    std::mem::forget(m); std::mem::forget(entry);
+}
